@@ -37,6 +37,9 @@ def generate(master, index, tier):
     if index % 100 == 7:
         # deep filler history: > 1000 consecutive zero-length frames, then a frame
         items = W.gen_long_error_run(rng, rng.choice((300, 1100, 1600)), style=2) + [W.gen_frame(rng)]
+    if index % 100 == 57:
+        # long-lived connection: hundreds to thousands of valid frames through one reader
+        items = W.gen_long_valid_run(rng, rng.choice((150, 300, 700, 1500, 3000)))
     kind = rng.choice(("bytesio", "buffered", "socket", "socket", "serial"))
     return {
         "prop": PROP,
@@ -88,10 +91,15 @@ def intra_frame_boundaries(st, items):
         if k == "d":
             p += n
             bounds.add(p)
+    import bisect
+
+    bl = sorted(bounds)
     c = 0
     for (s, e), it in zip(W.offsets_of(items), items):
-        if it[0] in ("frame", "filler", "bad", "undec") and any(s < x < e for x in bounds):
-            c += 1
+        if it[0] in ("frame", "filler", "bad", "undec"):
+            i = bisect.bisect_right(bl, s)
+            if i < len(bl) and bl[i] < e:
+                c += 1
     return c
 
 
